@@ -40,7 +40,7 @@ CLAIMS.update({
         text='Static: every machine the plan-following algorithm proposes for task t is the machine with id '
              't.allocated_machine_id; the planned machine is rewritten only by Task itself at the scheduler\'s '
              'request; the (task, machine) pair is passed unchanged from scheduler to cluster to do_work; the id table is '
-             '{m.id: m for every machine m} and get_machine_from_id reads it.',
+             '{m.id: m for every machine m} and get_machine_from_id reads it; C02.P2 is adopted (machines leave a busy pool by identity).',
         note='Does not decide that the planned machine eventually becomes free (liveness).',
         ref='DESIGN.md section 4, C17'),
     'C10': dict(
@@ -56,7 +56,7 @@ CLAIMS.update({
         technique='sibling-agreement and path-dominance rules over the delay ladder; provenance of the returned delay',
         text='Static: every distribution branch must draw an array from default_rng(self.seed) and use the degree '
              'through .value; the returned value is an element of sample[sample > mean] or the runtime; the empty '
-             'selection is guarded; degree 0 returns before any draw; do_work flags lengthened tasks, nothing but '
+             'selection is guarded; degree 0 returns before any draw; do_work flags lengthened tasks, the scheduler examines every task of the plan (the loop is not left early), nothing but '
              'Task.__init__ ever lowers delay_flag, and the scheduler reports DELAYED. The uniform branch is a recorded known finding.',
         note='Trusts numpy Generator semantics; distribution values themselves are not decided.',
         ref='DESIGN.md section 4, C15'),
@@ -70,7 +70,7 @@ CLAIMS.update({
              'either untouched or moved by one remove plus one append to a different pool; refusals precede effects '
              'and a helper\'s refusal status is never dropped; machines set aside for a reservation are by provenance '
              'elements of the available pool (so the bulk operation cannot be refused half-way); the usage counters move exactly with the containers '
-             'they mirror; containers are per instance (no class-level mutables or mutable defaults); C04.T2 and C09.R4 are adopted. These are necessary conditions for exactly-one-pool and true counts at every instant.',
+             'they mirror and start as the sizes of those containers (P10); containers are per instance (no class-level mutables or mutable defaults); C04.T2 and C09.R4 are adopted. These are necessary conditions for exactly-one-pool and true counts at every instant.',
         note='Final state ("all machines available at the end") needs termination and is not decided. '
              'Assumes machines are unique objects and list.append/remove semantics.',
         ref='DESIGN.md section 4, C02'),
@@ -81,7 +81,7 @@ CLAIMS.update({
              'ingest releases the same amount on every exit; L2 every while-cycle of every SimPy process yields; '
              'L3 batch partitions are released at workflow end (release judged by its effects); L4 every [-1]/pop on a tier stored list and every '
              'free-list remove is dominated by its precondition; L6 an algorithm takes a machine off its per-round free list only when it proposes it; '
-             'L10/L11 every attribute and name read in a function reachable from the simulation entry points has a definition that can precede the read (else AttributeError/NameError); '
+             'L12 an algorithm drawing from the ready pool puts the successors of every proposed task into it (taint flow); L13 no process loop is dead (test constant false or contradicting the guards before it); L10/L11 every attribute and name read in a function reachable from the simulation entry points has a definition that can precede the read (else AttributeError/NameError); '
              'L5/L7/L8 adopt the life-cycle, typestate, reservation-return and pending-volume rules of C08, C04, C09, C18.',
         note='Each clause is necessary: its violation makes a feasible configuration block forever or raise. Sufficiency is not claimed.',
         ref='DESIGN.md section 4, C05'),
@@ -97,20 +97,20 @@ CLAIMS.update({
         technique='guard-first / effect-freedom / single-registration rules + consume-once rule on the collation',
         text='Static: start and resume test the running flag and refuse before any effect; resume registers nothing '
              'and writes no state; every actor loop is registered exactly once, only in start; the event collation '
-             'empties what it read (it runs twice for the pause step); processes sleep in whole steps; what start does after the run (its tail) writes no simulation state.',
+             'empties what it read (it runs twice for the pause step); processes sleep in whole steps; a new simulation is not running (initial state); what start does after the run (its tail) writes no simulation state.',
         note='Equality of whole trajectories follows from these plus SimPy determinism (witness checked against the installed SimPy); it is not proved as such.',
         ref='DESIGN.md section 4, C11'),
     'C12': dict(
         technique='registration-order rule, per-cycle path rule on Monitor.run, column provenance table, counter coupling over atomic blocks',
         text='Static: the monitor is the first registered process; each cycle appends exactly one row and sleeps one '
              'step; each of 11 columns reads the state field it names; the usage counters behind the cluster columns '
-             'move with their containers in every atomic block (same analysis as C02.P4); C18.V4 (stored lists) and the shared-container lint are adopted.',
+             'move with their containers in every atomic block (same analysis as C02.P4) and start as the sizes of those containers (C02.P10 adopted); C18.V4 (stored lists) and the shared-container lint are adopted.',
         note='SimPy order model verified against the installed source; values of the fields themselves are decided by C02/C07 rules.',
         ref='DESIGN.md section 4, C12'),
     'C13': dict(
         technique='event-table pairing rule over paths + SimPy process-order model (roots, registration order) for clear/emit/read ordering',
         text='Static: each of the eight life-cycle events has exactly one emit site, on exactly the paths of its '
-             'transition, stamped env.now; the monitor collates all three lists and consumes them; no clear of a list '
+             'transition, stamped env.now; the monitor collates all three lists (a path that skips one has seen it empty) and consumes them; no clear of a list '
              'can run between an emit into it and the monitor\'s next read, judged with the registration order of the '
              'actor loops and the actor each emitting/clearing process is rooted at; C08.A1/A8/A9 and C07.B3 (the transitions the events report) are adopted.',
         note='Numeric order of timestamps is not decided; it follows from emit-at-transition plus the spawn chain.',
@@ -132,7 +132,7 @@ CLAIMS.update({
         text='Static: every proposal of a task in the four shipped algorithms is dominated by "no predecessors" or an '
              'all-predecessors-finished fact; tasks enter the finished table only under the completion test; cross-machine '
              'predecessors (only) are collected, passed through cluster to do_work, waited for before ast is recorded; the wait '
-             'is the running maximum of p.aft + io[p.id]/machine.bandwidth - now with the receiving machine\'s bandwidth; C14.G2 (task ids/predecessor queries) is adopted.',
+             'is the running maximum of p.aft + io[p.id]/machine.bandwidth - now with the receiving machine\'s bandwidth; C14.G2 (task ids/predecessor queries) is adopted; every submitted task is entered in the allocation record as (task, machine); the process watching a task sleeps only whole steps (never waits on the work process itself).',
         note='Exact start equality under concurrency is timing and not decided.',
         ref='DESIGN.md section 4, C03'),
     'C04': dict(
@@ -140,7 +140,7 @@ CLAIMS.update({
         text='Static necessary conditions: hand-off stored->scheduled is one pop+append handing out the moved observation and queueing+spawn happen together; task '
              'status writes follow the life cycle with FINISHED only under the completion test; a submitted task leaves '
              'UNSCHEDULED at once, stale proposals are refused, duplicates in a round are skipped; finished tasks (only) leave '
-             'the plan; workflows close only when nothing is left; start() returns only when is_finished(); the scheduler releases reservations itself (C09.R4 adopted); the hot buffer hands out for processing the observation it moves to the cold tier (T10).',
+             'the plan; workflows close only when nothing is left; start() returns only when is_finished(); the scheduler releases reservations itself (C09.R4 adopted); the hot buffer hands out for processing the observation it moves to the cold tier (T10); the allocation loop of a workflow generates, submits and carries over its schedule every round and is left only when the workflow is reported finished (T12), a submitted proposal leaves the schedule (T8), the completion path writes FINISHED, the open-ended start() takes the run-to-completion loop, C08.A7 is adopted (T11).',
         note='Liveness (every task is eventually offered) and final values are not decided.',
         ref='DESIGN.md section 4, C04'),
     'C07': dict(
@@ -148,7 +148,7 @@ CLAIMS.update({
         text='Static conservation clauses: every ingest step takes the data rate from the hot tier and adds the same rate to the '
              'observation; the countdown idiom runs the deposit duration times (sibling agrees); remove frees exactly '
              'total_data_size once for a resident observation; rate above the limit raises before the decrement; only the tiers '
-             'write current_capacity; admission requires room for the whole volume in both tiers.',
+             'write current_capacity; an observation starts with no data (initial state); admission requires room for the whole volume in both tiers.',
         note='The bounds 0 <= free <= capacity and "full at the end" are values and are not decided; admission does not reserve data still to come (DESIGN.md section 6).',
         ref='DESIGN.md section 4, C07'),
     'C08': dict(
@@ -156,7 +156,7 @@ CLAIMS.update({
         text='Static: begin_observation and the ingest spawn are dominated by is_ready(now, total_arrays - telescope_use computed '
              'per observation) and the scheduler check; each predicate\'s true verdict implies its required atoms (start time, arrays, '
              'WAITING; buffer and cluster checks, pending+demand<=max with reservation; available>=demand, ingest+demand<=max; room '
-             'for rate*duration in both tiers); ingest takes exactly demand machines; status and telescope_use follow their life cycle (writes through ast-level aliases included); C05.L1 and C06.W4 are adopted.',
+             'for rate*duration in both tiers); ingest takes exactly demand machines; status and telescope_use follow their life cycle and start at zero / not-in-use (initial state) (writes through ast-level aliases included); C05.L1 and C06.W4 are adopted.',
         note='"Starts exactly on time when idle" and same-step admissions reading stale pools are not decided.',
         ref='DESIGN.md section 4, C08'),
     'C09': dict(
@@ -164,7 +164,7 @@ CLAIMS.update({
         text='Static: BatchProcessing proposes only machines from get_idle_resources(plan.id) when provisioned; provisioning is '
              'dominated by not-provisioned, partitions free and size >= minimum; the size is floor(machines/partitions) capped by '
              'availability or the per-observation split (never below its minimum); finished tasks return machines to the owner; '
-             'exclusivity and release are adopted from C01.N3/N5, C02.P2/P4 and C05.L3.',
+             'exclusivity and release are adopted from C01.N3/N5, C02.P2/P4, C05.L3 and C04.T2; the reservation count starts at 0, is +1 per successful provisioning and -1 per dropped key (R7).',
         note='Counts at run time follow from these guards plus the counter rule; not enumerated.',
         ref='DESIGN.md section 4, C09'),
     'C18': dict(
